@@ -53,7 +53,11 @@ type solveResult struct {
 }
 
 func runSolver(s solverSpec, file string, timeoutS int, wantModel bool) (status, out string, dt float64) {
-	ctx, cancel := context.WithTimeout(context.Background(), time.Duration(timeoutS+2)*time.Second)
+	return runSolverCtx(context.Background(), s, file, timeoutS)
+}
+
+func runSolverCtx(parent context.Context, s solverSpec, file string, timeoutS int) (status, out string, dt float64) {
+	ctx, cancel := context.WithTimeout(parent, time.Duration(timeoutS+2)*time.Second)
 	defer cancel()
 	argv := s.Argv(file, timeoutS)
 	cmd := exec.CommandContext(ctx, argv[0], argv[1:]...)
@@ -95,28 +99,69 @@ func solve(dir string, query string, timeoutS int, thorough bool, wantSat bool) 
 		st, _, dt := runSolver(solvers[0], file, 2, false)
 		return solveResult{Status: st, Solver: solvers[0].Name, Time: dt, All: map[string]string{solvers[0].Name: st}}
 	}
-	for _, s := range solvers {
-		st, out, dt := runSolver(s, file, timeoutS, true)
-		res.All[s.Name] = fmt.Sprintf("%s %.2fs", st, dt)
-		decided := st == "unsat" || st == "sat"
-		if decided && (res.Status != "unsat" && res.Status != "sat") {
-			res.Status, res.Solver, res.Time = st, s.Name, dt
-			if st == "sat" {
-				if i := strings.Index(out, "\n"); i >= 0 {
-					res.Model = out[i+1:]
+	if thorough {
+		for _, s := range solvers {
+			st, out, dt := runSolver(s, file, timeoutS, true)
+			res.All[s.Name] = fmt.Sprintf("%s %.2fs", st, dt)
+			decided := st == "unsat" || st == "sat"
+			if decided && (res.Status != "unsat" && res.Status != "sat") {
+				res.Status, res.Solver, res.Time = st, s.Name, dt
+				if st == "sat" {
+					if i := strings.Index(out, "\n"); i >= 0 {
+						res.Model = out[i+1:]
+					}
+				}
+			} else if !decided && res.Status != "unsat" && res.Status != "sat" {
+				res.Status, res.Solver = st, s.Name
+				res.Time += dt
+				if st == "error" {
+					res.Model = out
 				}
 			}
-		} else if !decided && res.Status != "unsat" && res.Status != "sat" {
-			res.Status = st
-			res.Solver = s.Name
-			res.Time += dt
-			if st == "error" {
-				res.Model = out
+		}
+		return res
+	}
+	// quick tier: the first solver gets a short head start, then all remaining solvers race
+	type ans struct {
+		name, st, out string
+		dt            float64
+	}
+	st0, out0, dt0 := runSolver(solvers[0], file, 3, true)
+	res.All[solvers[0].Name] = fmt.Sprintf("%s %.2fs", st0, dt0)
+	if st0 == "unsat" || st0 == "sat" {
+		res.Status, res.Solver, res.Time = st0, solvers[0].Name, dt0
+		if st0 == "sat" {
+			if i := strings.Index(out0, "\n"); i >= 0 {
+				res.Model = out0[i+1:]
 			}
 		}
-		if decided && !thorough {
-			break
+		return res
+	}
+	ch := make(chan ans, len(solvers))
+	ctx, cancel := context.WithCancel(context.Background())
+	defer cancel()
+	for _, sv := range solvers {
+		go func(sv solverSpec) {
+			st, out, dt := runSolverCtx(ctx, sv, file, timeoutS)
+			ch <- ans{sv.Name, st, out, dt}
+		}(sv)
+	}
+	res.Status, res.Solver = st0, solvers[0].Name
+	for range solvers {
+		a := <-ch
+		res.All[a.name] = fmt.Sprintf("%s %.2fs", a.st, a.dt)
+		if a.st == "unsat" || a.st == "sat" {
+			res.Status, res.Solver, res.Time = a.st, a.name, a.dt+dt0
+			if a.st == "sat" {
+				if i := strings.Index(a.out, "\n"); i >= 0 {
+					res.Model = a.out[i+1:]
+				}
+			}
+			cancel()
+			return res
 		}
+		res.Status, res.Solver = a.st, a.name
+		res.Time = a.dt + dt0
 	}
 	return res
 }
